@@ -319,12 +319,15 @@ def methodSrc (m : Str × Str × Str) : Str :=
   L "fn " ++ m.2.1 ++ L "(self) -> Result<" ++ m.2.2 ++ L ", Self> {\n    match self {\n        Self::" ++ m.1 ++
   L "(t) => Ok(t),\n        _ => Err(self),\n    }\n}"
 
-/-- the `format!` of `file_src` -/
-def render (m : Module) : Str :=
+/-- the comment header of the emitted file, with the digest of the grammar source -/
+def headerBefore : Str := L "// This code was generated by Kiki.\n// Kiki is an open-source minimalist parser generator for Rust.\n// You can read more at https://crates.io/crates/kiki\n//\n// This code was generated from a grammar with the following hash:\n// @sha256 "
+def headerAfter : Str := L "\n\n// Since this code is automatically generated,\n// some parts may be unidiomatic.\n// The linter often complains about these parts.\n// However, these warnings are not useful.\n// Therefore, we disable certain lints for this file.\n#![allow(non_snake_case)]\n#![allow(dead_code)]\n\n"
+def header (sha : Str) : Str := headerBefore ++ sha ++ headerAfter
+
+/-- everything after the header -/
+def body (m : Module) : Str :=
   let n := m.names
   let T := m.tenumName
-  L "// This code was generated by Kiki.\n// Kiki is an open-source minimalist parser generator for Rust.\n// You can read more at https://crates.io/crates/kiki\n//\n// This code was generated from a grammar with the following hash:\n// @sha256 " ++ m.sha ++
-  L "\n\n// Since this code is automatically generated,\n// some parts may be unidiomatic.\n// The linter often complains about these parts.\n// However, these warnings are not useful.\n// Therefore, we disable certain lints for this file.\n#![allow(non_snake_case)]\n#![allow(dead_code)]\n\n" ++
   attrsSrc m.tenumAttrs ++ L "pub enum " ++ T ++ L " {\n" ++
   indent 1 (joinNl (m.tenumVariants.map fun (v, ty) => v ++ L "(" ++ ty ++ L "),")) ++ L "\n}\n\n" ++
   joinNlNl (m.types.map typeDefSrc) ++
@@ -357,6 +360,10 @@ def render (m : Module) : Str :=
   L "\n\nimpl " ++ n.node ++ L " {\n" ++
   indent 1 (joinNlNl (m.methods.map methodSrc)) ++
   L "\n}\n"
+
+
+/-- the `format!` of `file_src` -/
+def render (m : Module) : Str := header m.sha ++ body m
 
 end Emit
 end KikiVerif
